@@ -11,6 +11,7 @@
 from __future__ import annotations
 
 import asyncio
+from .watchdog import Stalled, bounded
 import heapq
 import selectors
 from typing import Any, Callable, List, Optional, Tuple
@@ -52,8 +53,11 @@ class StepLoop(asyncio.SelectorEventLoop):
 
     def tick(self) -> None:
         """Run exactly one iteration of the loop (the handles ready now, plus timers that are due)."""
-        self.call_soon(self.stop)
-        self.run_forever()
+        with bounded(120, "one iteration of the event loop (library callbacks and tasks)") as st:
+            self.call_soon(self.stop)
+            self.run_forever()
+        if st.fired:            # (the interruption may have been absorbed by a task: report it all the same)
+            raise Stalled(st.fired)
 
     def has_ready(self) -> bool:
         return bool(self._ready)
